@@ -92,11 +92,11 @@ func runKindPart(c *core.Ctx) {
 // ---------------------------------------------------------------- cache anchors
 
 type cacheAnchors struct {
-	add    *ssa.Function // exported EventCache.Add
-	ins    *ssa.Function // helper with the map insert on evs
-	del    *ssa.Function // helper with the builtin delete on evs
-	keyFn  *ssa.Function // key function used by Add
-	insCall *ssa.Call    // call of ins in Add
+	add     *ssa.Function // exported EventCache.Add
+	ins     *ssa.Function // helper with the map insert on evs
+	del     *ssa.Function // helper with the builtin delete on evs
+	keyFn   *ssa.Function // key function used by Add
+	insCall *ssa.Call     // call of ins in Add
 }
 
 func mapUpdatesOn(fn *ssa.Function, suffix string) []*ssa.MapUpdate {
